@@ -18,6 +18,14 @@
 //! sequencer is visible. Spot ids are consecutive (the spot rule U = u_prev+1 presupposes it); the futures
 //! venue is run with consecutive ids AND with ids that leave holes (stride 2: U = pu+2), because on that venue
 //! only `pu` links two updates — this separates "pu = previous u" from "U = previous u + 1".
+//! Half of the configurations use ids around 1000, the other half ids on both sides of 2^32 (`base_hi`): the
+//! venue's ids are u64 and the rules only compare them, so a narrowed id is visible only across that boundary.
+//! One script (3, used by instrument 1) has a change id that touches no level, so that one of its updates is a
+//! depth update WITHOUT levels: it continues (or starts) the chain like any other update.
+//!
+//! Two further layers live in `c06_init.rs` (loopback venue): the real `ExchangeWsStream::init` for the spot and
+//! the futures transformer, and the real `init_market_stream` (termination on terminal errors + automatic
+//! re-initialisation) around the spot transformer.
 //!
 //! Oracle = venue-rule monitor written from the statement (per instrument; `pos` = u of the last update the
 //! implementation admitted):
@@ -34,7 +42,10 @@
 //!            market; a message of an un-subscribed market yields no event. Isolation of the per-instrument
 //!            chains follows from running one monitor per instrument.
 //! Freedom left by the statement and accepted: a stale / duplicate message after the chain has started may be
-//! dropped or answered with an error; an error for an unknown market may or may not be terminal.
+//! dropped or answered with an error; an error for an unknown market may or may not be terminal; a level-less
+//! update that yields no event may have been consumed (chain position advanced) or ignored - the monitor
+//! carries both positions (`Mon::cands`) until an output tells them apart; silently dropping a level-less
+//! update is never a break (it cannot make the book wrong), admitting one across a gap still is.
 
 use crate::core::{Ctx, Distinct, Outcome, Samples, hash_of};
 use crate::explore::seq::{self, SeqModel, Viol};
@@ -85,14 +96,24 @@ pub struct Cfg {
     /// U = u_prev + 1 presupposes); 2 = ids with holes, as on the futures venue where only pu links two updates
     pub stride: u8,
     pub inst: [InstCfg; 2],
+    /// false: ids start at 1000; true: ids start just below 2^32, so that the ids of one configuration lie on
+    /// both sides of the 32-bit boundary (the venue's ids are u64 and passed 2^32 long ago)
+    #[serde(default)]
+    pub base_hi: bool,
 }
 
-const BASE: u64 = 1000;
+const BASE_LO: u64 = 1000;
+const BASE_HI: u64 = (1 << 32) - 3;
+fn base_of(cfg: &Cfg) -> u64 {
+    if cfg.base_hi { BASE_HI } else { BASE_LO }
+}
 const MARKETS: [&str; 2] = ["BTCUSDT", "ETHUSDT"];
 const UNKNOWN_MARKET: &str = "XRPUSDT";
 
-/// (bid?, price, amount) — amount 0 deletes.
+/// (bid?, price, amount) — amount 0 deletes. An empty price marks a change id that touches no level of the
+/// book the stream carries: an update made only of such ids is a depth update WITHOUT levels.
 type Change = (bool, &'static str, &'static str);
+const NO_LEVEL: Change = (true, "", "");
 
 /// Evolution scripts: (initial bids, initial asks, changes). Every prefix gives a different book and
 /// re-applying an old update after a newer one is visible (levels are set, deleted and re-set).
@@ -107,6 +128,12 @@ fn script(i: u8) -> (Vec<(&'static str, &'static str)>, Vec<(&'static str, &'sta
             vec![("50", "1")],
             vec![("51", "1")],
             vec![(false, "51", "2"), (true, "50", "0"), (true, "49", "7"), (false, "51", "0")],
+        ),
+        3 => (
+            // script 1 with a level-less change in second place
+            vec![("50", "1")],
+            vec![("51", "1")],
+            vec![(false, "51", "2"), NO_LEVEL, (true, "49", "7"), (false, "51", "0")],
         ),
         _ => (
             vec![],
@@ -148,6 +175,7 @@ struct Inst {
     books_at: Vec<(PMap, PMap)>, // venue book after 0..=k changes
     ids: Vec<Ids>,
     msgs: Vec<Msg>,
+    levelless: Vec<bool>, // per update: carries no level at all
     sub_id: SubscriptionId,
     snapshot: MarketEvent<Key, OrderBookEvent>,
 }
@@ -157,6 +185,11 @@ pub struct Scn {
     inst: [Inst; 2],
     unknown: Msg,
     counts: [AtomicU64; 32], // class x outcome, see `bump`
+    /// the "messages to the venue" channel every transformer initialisation is handed (the Binance L2
+    /// transformers never send); one per scenario instead of one per step
+    /// the REST snapshot list handed to every transformer initialisation (order: see `new`)
+    snaps: [MarketEvent<Key, OrderBookEvent>; 2],
+    ws_sink: (tokio::sync::mpsc::UnboundedSender<barter_integration::protocol::websocket::WsMessage>, std::sync::Mutex<tokio::sync::mpsc::UnboundedReceiver<barter_integration::protocol::websocket::WsMessage>>),
 }
 
 fn dec(s: &str) -> Decimal {
@@ -188,8 +221,8 @@ fn sub_id_of(m: &Msg) -> SubscriptionId {
 }
 
 impl Inst {
-    fn build(futures: bool, stride: u64, key: Key, c: InstCfg) -> Inst {
-        let id = |t: usize| BASE + stride * t as u64;
+    fn build(futures: bool, stride: u64, base: u64, key: Key, c: InstCfg) -> Inst {
+        let id = |t: usize| base + stride * t as u64;
         let (b0, a0, changes) = script(c.script);
         let k = c.k as usize;
         assert!(k >= 1 && k <= changes.len() && (c.snap as usize) <= k);
@@ -197,21 +230,23 @@ impl Inst {
         let mut asks: PMap = a0.iter().map(|(p, q)| (dec(p), dec(q))).collect();
         let mut books_at = vec![(bids.clone(), asks.clone())];
         for (is_bid, p, q) in changes.iter().take(k) {
-            let side = if *is_bid { &mut bids } else { &mut asks };
-            if dec(q).is_zero() { side.remove(&dec(p)); } else { side.insert(dec(p), dec(q)); }
+            if !p.is_empty() {
+                let side = if *is_bid { &mut bids } else { &mut asks };
+                if dec(q).is_zero() { side.remove(&dec(p)); } else { side.insert(dec(p), dec(q)); }
+            }
             books_at.push((bids.clone(), asks.clone()));
         }
         // composition into updates
         let market = MARKETS[key as usize];
-        let (mut ids, mut msgs) = (Vec::new(), Vec::new());
-        let (mut start, mut prev) = (1usize, BASE);
+        let (mut ids, mut msgs, mut levelless) = (Vec::new(), Vec::new(), Vec::new());
+        let (mut start, mut prev) = (1usize, base);
         for end in 1..=k {
             if end == k || c.cuts & (1 << (end - 1)) != 0 {
                 let id = Ids { first: id(start), last: id(end), prev };
                 // absolute amounts (as of `end`) of the levels touched by changes start..=end
                 let touched = |want_bid: bool| -> Vec<(Decimal, Decimal)> {
                     let mut v: Vec<(Decimal, Decimal)> = Vec::new();
-                    for (is_bid, p, _) in changes[start - 1..end].iter() {
+                    for (is_bid, p, _) in changes[start - 1..end].iter().filter(|c| !c.1.is_empty()) {
                         let p = dec(p);
                         if *is_bid == want_bid && !v.iter().any(|(x, _)| *x == p) {
                             let book = if want_bid { &books_at[end].0 } else { &books_at[end].1 };
@@ -220,7 +255,9 @@ impl Inst {
                     }
                     v
                 };
-                msgs.push(parse_msg(futures, market, id, &touched(true), &touched(false)));
+                let (tb, ta) = (touched(true), touched(false));
+                levelless.push(tb.is_empty() && ta.is_empty());
+                msgs.push(parse_msg(futures, market, id, &tb, &ta));
                 ids.push(id);
                 prev = id.last;
                 start = end + 1;
@@ -239,15 +276,23 @@ impl Inst {
         let snap: BinanceOrderBookL2Snapshot = serde_json::from_str(&v.to_string()).expect("snapshot payload");
         let exchange = if futures { ExchangeId::BinanceFuturesUsd } else { ExchangeId::BinanceSpot };
         let sub_id = sub_id_of(&parse_msg(futures, market, Ids { first: 0, last: 0, prev: 0 }, &[], &[]));
-        Inst { snap_id, books_at, ids, msgs, sub_id, snapshot: MarketEvent::from((exchange, key, snap)) }
+        Inst { snap_id, books_at, ids, msgs, levelless, sub_id, snapshot: MarketEvent::from((exchange, key, snap)) }
     }
 }
 
 impl Scn {
     pub fn new(cfg: Cfg) -> Self {
-        let inst = [Inst::build(cfg.futures, cfg.stride as u64, 0, cfg.inst[0]), Inst::build(cfg.futures, cfg.stride as u64, 1, cfg.inst[1])];
-        let unknown = parse_msg(cfg.futures, UNKNOWN_MARKET, Ids { first: BASE + 1, last: BASE + 1, prev: BASE }, &[(dec("7"), dec("7"))], &[]);
-        Scn { cfg, inst, unknown, counts: std::array::from_fn(|_| AtomicU64::new(0)) }
+        let base = base_of(&cfg);
+        let inst = [Inst::build(cfg.futures, cfg.stride as u64, base, 0, cfg.inst[0]), Inst::build(cfg.futures, cfg.stride as u64, base, 1, cfg.inst[1])];
+        let unknown = parse_msg(cfg.futures, UNKNOWN_MARKET, Ids { first: base + 1, last: base + 1, prev: base }, &[(dec("7"), dec("7"))], &[]);
+        let (tx, rx) = tokio::sync::mpsc::unbounded_channel();
+        let reversed = (cfg.inst[0].cuts as u32 + cfg.inst[0].snap as u32) % 2 == 1;
+        let snaps = if reversed {
+            [inst[1].snapshot.clone(), inst[0].snapshot.clone()]
+        } else {
+            [inst[0].snapshot.clone(), inst[1].snapshot.clone()]
+        };
+        Scn { cfg, inst, unknown, snaps, counts: std::array::from_fn(|_| AtomicU64::new(0)), ws_sink: (tx, std::sync::Mutex::new(rx)) }
     }
 
     /// The real transformer, initialised as `ExchangeWsStream::init` does: subscription map + REST snapshots.
@@ -257,17 +302,12 @@ impl Scn {
         // its instrument by key; the subscription map iterates in hash order): half of the
         // configurations hand the snapshots over in subscription order, the other half reversed, so a
         // positional pairing cannot go unnoticed whatever the hash order happens to be.
-        let reversed = (self.cfg.inst[0].cuts as u32 + self.cfg.inst[0].snap as u32) % 2 == 1;
-        let snaps = if reversed {
-            [self.inst[1].snapshot.clone(), self.inst[0].snapshot.clone()]
-        } else {
-            [self.inst[0].snapshot.clone(), self.inst[1].snapshot.clone()]
-        };
-        let (tx, _rx) = tokio::sync::mpsc::unbounded_channel();
+        let snaps = &self.snaps;
+        let tx = self.ws_sink.0.clone();
         if self.cfg.futures {
-            Tf::Fut(futures::executor::block_on(BinanceFuturesUsdOrderBooksL2Transformer::<Key>::init(map, &snaps, tx)).expect("transformer init"))
+            Tf::Fut(futures::executor::block_on(BinanceFuturesUsdOrderBooksL2Transformer::<Key>::init(map, snaps, tx)).expect("transformer init"))
         } else {
-            Tf::Spot(futures::executor::block_on(BinanceSpotOrderBooksL2Transformer::<Key>::init(map, &snaps, tx)).expect("transformer init"))
+            Tf::Spot(futures::executor::block_on(BinanceSpotOrderBooksL2Transformer::<Key>::init(map, snaps, tx)).expect("transformer init"))
         }
     }
 
@@ -318,9 +358,20 @@ const OUTCOME_NAMES: [&str; 4] = ["admitted", "dropped", "terminal-error", "non-
 
 #[derive(Clone, Debug, PartialEq, Eq, Hash)]
 struct Mon {
-    pos: Option<u64>, // u of the last update the implementation admitted
+    /// Chain positions the implementation may be at (u of the last update it consumed; None = chain not
+    /// started). One entry, except after a LEVEL-LESS update that continued the chain produced no output: the
+    /// implementation may have consumed it silently (position = its u) or ignored it (position unchanged) -
+    /// the book is right either way, the statement does not choose, so both positions are carried until the
+    /// next output tells them apart. `cands[0]` is the primary one (used for classification counts and texts).
+    cands: Vec<Option<u64>>,
     clean: Clean,
     desynced: bool, // R-chain already violated: the book is no longer judged
+}
+
+impl Mon {
+    fn pos(&self) -> Option<u64> {
+        self.cands[0]
+    }
 }
 
 #[derive(Clone)]
@@ -351,9 +402,10 @@ impl Scn {
         let inst = &self.inst[i];
         let book = &st.books[i];
         let r = self.rules();
-        let off = book.sequence.wrapping_sub(BASE);
+        let base = base_of(&self.cfg);
+        let off = book.sequence.wrapping_sub(base);
         let idx = (off / self.cfg.stride as u64) as usize;
-        if book.sequence < BASE || off % self.cfg.stride as u64 != 0 || idx >= inst.books_at.len() {
+        if book.sequence < base || off % self.cfg.stride as u64 != 0 || idx >= inst.books_at.len() {
             out.push((format!("C06/{r}/book/reports-a-sequence-the-venue-never-had"), format!("{when}: instrument {i} local book sequence {}", book.sequence)));
         } else if !book_matches(book, &inst.books_at[idx]) {
             out.push((
@@ -375,7 +427,7 @@ impl SeqModel for Scn {
         for i in 0..2 {
             books[i].update(self.inst[i].snapshot.kind.clone());
         }
-        let mon = Mon { pos: None, clean: Clean::Pre, desynced: false };
+        let mon = Mon { cands: vec![None], clean: Clean::Pre, desynced: false };
         St { books, mon: [mon.clone(), mon], ended: false, unknown_used: false }
     }
 
@@ -464,13 +516,31 @@ impl SeqModel for Scn {
         st.mon[i].clean = clean_after;
         let in_order = clean_after != Clean::Dirty;
         // implementation-side classification: relative to the chain the implementation has admitted so far
-        let class = classify(self.cfg.futures, inst.snap_id, st.mon[i].pos, ids);
-        let breaks_chain = matches!(class, Class::Gap | Class::Overlap);
+        // (one class per candidate position, see `Mon::cands`)
+        let classes: Vec<Class> = st.mon[i].cands.iter().map(|c| classify(self.cfg.futures, inst.snap_id, *c, ids)).collect();
+        let class = classes[0];
+        let breaking = |c: Class| matches!(c, Class::Gap | Class::Overlap);
+        let breaks_chain = classes.iter().all(|c| breaking(*c));
+        let levelless = inst.levelless[sym.k as usize];
 
         if outputs.is_empty() {
             self.bump(class, 1);
-            if breaks_chain {
+            if levelless {
+                // a level-less update that produces no event cannot make the book wrong, whatever the
+                // implementation did with it: consumed (if it continues the chain) or ignored
+                let mut next = st.mon[i].cands.clone();
+                for (c, cl) in st.mon[i].cands.iter().zip(&classes) {
+                    if matches!((c, cl), (None, Class::Covering) | (Some(_), Class::Next)) && !next.contains(&Some(ids.last)) {
+                        next.push(Some(ids.last));
+                    }
+                }
+                st.mon[i].cands = next;
+            } else if breaks_chain {
                 out.push((format!("C06/{r}/break-not-surfaced/{}-silently-dropped", CLASS_NAMES[class as usize]), describe("no output at all")));
+            } else {
+                // a silent drop is no break only at the positions where the message is not beyond the chain
+                let keep: Vec<Option<u64>> = st.mon[i].cands.iter().zip(&classes).filter(|(_, cl)| !breaking(**cl)).map(|(c, _)| *c).collect();
+                st.mon[i].cands = keep;
             }
         }
         for o in outputs {
@@ -487,13 +557,13 @@ impl SeqModel for Scn {
                         continue;
                     }
                     // R-chain
-                    let ok = matches!((st.mon[i].pos, class), (None, Class::Covering) | (Some(_), Class::Next));
+                    let ok = st.mon[i].cands.iter().zip(&classes).any(|(c, cl)| matches!((c, cl), (None, Class::Covering) | (Some(_), Class::Next)));
                     if !ok {
-                        let which = if st.mon[i].pos.is_none() { "first-admitted-does-not-cover-snapshot" } else { "admitted-does-not-follow-previous" };
-                        out.push((format!("C06/{r}/chain/{which}/{}", CLASS_NAMES[class as usize]), describe(&format!("update admitted while chain position is {:?} (snapshot id {})", st.mon[i].pos, inst.snap_id))));
+                        let which = if st.mon[i].pos().is_none() { "first-admitted-does-not-cover-snapshot" } else { "admitted-does-not-follow-previous" };
+                        out.push((format!("C06/{r}/chain/{which}/{}", CLASS_NAMES[class as usize]), describe(&format!("update admitted while chain position is {:?} (snapshot id {})", st.mon[i].cands, inst.snap_id))));
                         st.mon[i].desynced = true;
                     }
-                    st.mon[i].pos = Some(ids.last);
+                    st.mon[i].cands = vec![Some(ids.last)];
                     st.books[i].update(ev.kind);
                     // R-book
                     if !st.mon[i].desynced {
@@ -527,7 +597,7 @@ impl SeqModel for Scn {
 
     fn final_hash(&self, s: &St) -> u64 {
         let b = |k: &OrderBook| (k.sequence, k.bids().levels().to_vec(), k.asks().levels().to_vec());
-        hash_of(&(b(&s.books[0]), b(&s.books[1]), s.mon[0].pos, s.mon[1].pos, s.ended))
+        hash_of(&(b(&s.books[0]), b(&s.books[1]), &s.mon[0].cands, &s.mon[1].cands, s.ended))
     }
 }
 
@@ -556,7 +626,10 @@ fn configs(k0: u8, scripts0: &[u8], menu1: &[InstCfg]) -> Vec<Cfg> {
             for cuts in 0..(1u8 << (k0 - 1)) {
                 for snap in 0..=k0 {
                     for m1 in menu1 {
-                        v.push(Cfg { futures, stride, inst: [InstCfg { script, k: k0, cuts, snap }, *m1] });
+                        // the id range is not a swept dimension of its own (the rules only compare ids): half of the
+                        // compositions run with ids around 1000, the other half with ids on both sides of 2^32
+                        let base_hi = cuts & 0b10 != 0;
+                        v.push(Cfg { futures, stride, inst: [InstCfg { script, k: k0, cuts, snap }, *m1], base_hi });
                     }
                 }
             }
@@ -567,8 +640,11 @@ fn configs(k0: u8, scripts0: &[u8], menu1: &[InstCfg]) -> Vec<Cfg> {
 
 pub fn run(ctx: &Ctx) -> Outcome {
     // (k of instrument 0, scripts of instrument 0, menu of instrument 1, max delivery length)
-    let b = |k: u8, cuts: u8, snap: u8| InstCfg { script: 1, k, cuts, snap };
-    let menu3 = vec![b(3, 0b11, 0), b(3, 0b01, 1), b(3, 0b10, 2), b(3, 0b00, 3)];
+    // instrument 1: script 3 (level-less second change; one update per change, so the second update carries no
+    // level: it continues the chain at snapshot point 0 and is the covering update at snapshot point 1) and
+    // script 1 (a two-change first update, everything stale)
+    let b = |script: u8, k: u8, cuts: u8, snap: u8| InstCfg { script, k, cuts, snap };
+    let menu3 = vec![b(3, 3, 0b11, 0), b(3, 3, 0b11, 1), b(1, 3, 0b10, 2), b(1, 3, 0b00, 3)];
     let sweeps: Vec<(u8, Vec<u8>, Vec<InstCfg>, usize)> = ctx.tier.pick(
         vec![(5, vec![0], menu3.clone(), 6)],
         vec![(5, vec![0, 2], menu3.clone(), 7), (6, vec![0, 2], menu3.clone(), 6)],
@@ -614,21 +690,45 @@ pub fn run(ctx: &Ctx) -> Outcome {
         }
     }
     // layer 2: the real stream initialisation against a scripted venue on loopback
+    // A loopback layer that cannot complete is a machinery failure (exit 2) - unless violations have already been
+    // recorded: a defect that derails a later layer must not hide what an earlier layer found.
+    let mut layers_not_completed: Vec<String> = Vec::new();
     let init = match super::c06_init::run(ctx) {
         Ok(st) => st,
+        Err(e) if ctx.violations.len() > 0 => {
+            layers_not_completed.push(format!("stream-initialisation: {e}"));
+            super::c06_init::InitStats { executions: 0, distinct_outcomes: 0, events: 0, samples: vec![] }
+        }
         Err(e) => {
             eprintln!("MACHINERY: C06 stream-initialisation layer failed: {e}");
+            std::process::exit(2);
+        }
+    };
+    let reinit = match super::c06_init::run_reinit(ctx) {
+        Ok(st) => st,
+        Err(e) if ctx.violations.len() > 0 => {
+            layers_not_completed.push(format!("re-initialisation: {e}"));
+            super::c06_init::ReinitStats { executions: 0, connections: 0, snapshot_fetches: 0, trace: vec![] }
+        }
+        Err(e) => {
+            eprintln!("MACHINERY: C06 re-initialisation layer failed: {e}");
             std::process::exit(2);
         }
     };
     Outcome {
         level: "exploration",
         coverage: json!({
+            "loopback_layers_not_completed_after_violations_were_found": layers_not_completed,
+            "reinit_layer_executions": reinit.executions,
+            "reinit_layer_connections_accepted": reinit.connections,
+            "reinit_layer_snapshot_fetches": reinit.snapshot_fetches,
+            "reinit_layer_items": reinit.trace,
+            "reinit_layer_rule": "real init_market_stream (reconnecting stream + termination on is_terminal errors) around the real ExchangeWsStream::init and the real Binance spot L2 transformer, for a harness exchange type with a scripted snapshot fetcher, against a loopback venue: connection 1 delivers updates 1,3,4 after a snapshot at 0; the item after the sequence error must be the snapshot of a new initialisation (connection 2: snapshot at 2, updates 2,3,4), never another item of the old connection; book == venue book at its sequence while not told invalid",
             "init_layer_executions": init.executions,
             "init_layer_distinct_event_traces": init.distinct_outcomes,
             "init_layer_events": init.events,
             "init_layer_samples": init.samples,
-            "init_layer_rule": "real ExchangeWsStream::<BinanceSpotOrderBooksL2Transformer>::init against a scripted loopback venue: updates 1..4 in order (or starting at 2) after the subscription confirmation, REST snapshot at S in 0..=4 (lagging or leading the socket); consumer applies the yielded events in order; after the snapshot the book must equal the venue book at its sequence unless a sequence error was yielded; in-order delivery from id 1 never errors",
+            "init_layer_rule": "real ExchangeWsStream::<BinanceSpotOrderBooksL2Transformer>::init and ::<BinanceFuturesUsdOrderBooksL2Transformer>::init against a scripted loopback venue: updates 1..4 in order (or starting at 2) after the subscription confirmation, REST snapshot at S in 0..=4 (lagging or leading the socket); consumer applies the yielded events in order; after the snapshot the book must equal the venue book at its sequence unless a sequence error was yielded; a delivery that contains the update covering the snapshot never errors; a delivery that starts beyond it yields the sequence error",
             "evaluations": sequences,
             "steps": steps,
             "configurations": n_cfg,
@@ -641,9 +741,11 @@ pub fn run(ctx: &Ctx) -> Outcome {
             "samples": samples,
         }),
         assumptions: vec![
-            "venue evolutions are the fixed scripts of this file (3 scripts, every composition into updates, every snapshot point); ids are consecutive per instrument".into(),
+            "venue evolutions are the fixed scripts of this file (4 scripts, every composition into updates, every snapshot point); ids are consecutive per instrument (futures also with holes); half of the configurations use ids around 1000, half ids on both sides of 2^32".into(),
+            "one script has a change id that touches no level, so one of its updates carries no level at all: such an update continues / covers the chain like any other; if it produces no event the implementation may have consumed or ignored it (both positions are carried by the monitor); admitting it across a gap is still a chain violation".into(),
             "an update carries the absolute amounts (as of its last id) of exactly the levels touched in its id range, as the venue documents".into(),
-            "REST snapshots are well-formed; in the transformer layer they are delivered to the consumer before the first depth update; the ordering of buffered events inside ExchangeWsStream::init is exercised by the separate loopback layer (spot only)".into(),
+            "REST snapshots are well-formed; in the transformer layer they are delivered to the consumer before the first depth update; the ordering of buffered events inside ExchangeWsStream::init is exercised by the separate loopback layer (spot and futures)".into(),
+            "re-initialisation layer: init_market_stream is run for a harness exchange type (Binance's protocol, scripted REST fetcher) because Binance's own fetcher has a constant REST URL; the transformer, sequencers, stream initialisation and reconnect / termination combinators are the real ones; a stream that stays silent for 30 s after a sequence error while the venue accepts connections counts as not re-initialising".into(),
             "a stale or duplicated message after the chain has started may be dropped or answered with an error (the statement leaves it open)".into(),
         ],
     }
